@@ -10,6 +10,10 @@ Record cmdline_consts := {
   unknown  : list byte     (* "(unknown)" when argv and filename are both missing *)
 }.
 Definition cmdline_consts_ok (c : cmdline_consts) : bool := list_eqb (sep c) [SP].
+(** the text printed when path and arguments are both missing is passed to snprintf as the FORMAT: it must be non-empty
+    (a reader can tell the record from an empty command line) and free of '%' (snprintf prints it as it stands) *)
+Definition cmdline_unknown_ok (c : cmdline_consts) : bool :=
+  negb (list_eqb (unknown c) []) && forallb (fun b => negb (beq b x25)) (unknown c).
 
 Section Cmdline.
   Variable c : cmdline_consts.
